@@ -196,6 +196,35 @@ def run(tier, rep):
     must_reject(flip(big, [0, nb - 1]), "bit2:maxdist", judge=True)
     for ln in range(2, 25):
         must_reject(flip(big, [nb - ln, nb - 1]), f"burst:{ln}@end")
+    # frames that embed a shorter, checksum-consistent frame: clearing length bits (a 1- or 2-bit
+    # error in the header) must still be rejected - the checksum is over the WHOLE buffer
+    def nested(len1, len2):
+        inner = bytes([0x3E, 0xD0]) + bytes(rnd.randrange(256) for _ in range(len2 - 2))
+        body2 = b"\xd3" + len2.to_bytes(2, "big") + inner
+        c2 = 0
+        from ..decode_rec import crc24q
+        pl = inner + crc24q(body2).to_bytes(3, "big")
+        pl += bytes(rnd.randrange(256) for _ in range(len1 - len(pl)))
+        return frame_of(pl)
+
+    for bit in range(10):
+        for len2 in (19, 40, 2, 100 + bit, 300, 511):
+            len1 = len2 | (1 << bit)
+            if len1 == len2 or len1 < len2 + 3 or len1 > 1023:
+                continue
+            fr = bytearray(nested(len1, len2))
+            fr[1], fr[2] = len2 >> 8, len2 & 0xFF           # the damage: one length bit cleared
+            must_reject(bytes(fr), f"lenbit1:{len1}->{len2}", judge=True)
+    for a in range(10):
+        for b in range(a + 1, 10):
+            len2 = 20 + a
+            len2 &= ~((1 << a) | (1 << b))
+            len2 = max(len2, 2)
+            len1 = len2 | (1 << a) | (1 << b)
+            if len1 >= len2 + 3 and len1 <= 1023:
+                fr = bytearray(nested(len1, len2))
+                fr[1], fr[2] = len2 >> 8, len2 & 0xFF
+                must_reject(bytes(fr), f"lenbit2:{len1}->{len2}", judge=(a + b) % 3 == 0)
     # validate = 0: the checksum bytes do not influence the result
     for pl in pool[: (20 if quick else 150)]:
         fr = bytearray(frame_of(pl))
